@@ -370,6 +370,36 @@ class Opaque:
         return f"<{self.what}>"
 
 
+class SymList:
+    """A Python list of symbolic length: an abstract prefix of `prefix_len` entries (described only by
+    the loop invariant) followed by the items appended on the current path.  Only append / len / [-1]
+    are modelled, so any other mutation puts the function out of reach."""
+    qv_value = True
+
+    def __init__(self, prefix_len, name=""):
+        self.prefix_len, self.items, self.name = prefix_len, [], name
+
+    def append(self, v):
+        self.items.append(v)
+
+    def getitem(self, i):
+        if isinstance(i, int) and i < 0 and -i <= len(self.items):
+            return self.items[i]
+        raise OutOfReach("read of an abstract list entry")
+
+    def length(self):
+        return self.prefix_len + len(self.items)
+
+    def truth(self):
+        return bool(self.length() > 0)
+
+    def has_attr(self, name):
+        return name in ("append",)
+
+    def __repr__(self):
+        return f"SymList({self.prefix_len}+{len(self.items)})"
+
+
 def fresh_rmat(name, rows, cols, storage="dense", kind="gen", **kw):
     return RMat(NC.atom(Atom(name, rows, cols, kind, **kw)), storage)
 
